@@ -1250,6 +1250,71 @@ def _is_freq(e):
     return bool(names) and names[-1] in ('frequency', '2') and root[0] == 'call' and root[1] in (N.HM + 'get', N.DM + 'get')
 
 
+def _abs_form(ctx, body, e, depth=0):
+    """abstract normal form of a score-factor expression over the leaves F (hit counter of the looked-up entry), W (frequency_weight
+    payload), TTL (ttl payload), I (queue index of the candidate), N (queue length), E (age of the entry in seconds)"""
+    e = strip_casts(e)
+    if depth > 12:
+        return '?deep'
+    if _is_freq(e):
+        return 'F'
+    k = e[0]
+    if k == 'const':
+        return ('%g' % e[1]) if isinstance(e[1], (int, float)) and not isinstance(e[1], bool) else '?const'
+    if k == 'field' and e[2] == '0' and e[1][0] == 'bin' and e[1][1].endswith('WithOverflow'):
+        return _abs_bin(ctx, body, e[1][1].replace('WithOverflow', ''), e[1][2], e[1][3], depth)
+    if k == 'bin':
+        return _abs_bin(ctx, body, e[1], e[2], e[3], depth)
+    if k == 'field':
+        root, names = field_path(e)
+        if names[-3:] == ['as:Some', '0', '0'] and root[0] == 'call' and root[1] == NEXT:
+            return 'I'
+        if names[-2:] == ['as:Some', '0']:
+            base = names[:-2]
+            if base and base[-1] == 'frequency_weight':
+                return 'W'
+            if base and base[-1] == 'ttl':
+                return 'TTL'
+            if not base and root[0] == 'param':
+                ty = body.local_ty(root[1])
+                if ty.startswith(N.OPTION + '<f64'):
+                    return 'W'
+                if ty.startswith(N.OPTION + '<u64'):
+                    return 'TTL'
+        return '?' + show(e)
+    if k == 'call':
+        cn = e[1]
+        short = cn.rsplit('::', 1)[-1]
+        if Roles(ctx.prog).role(body, e) == 'AGE_SECS':
+            return 'E'
+        if cn == 'core::time::Duration::as_secs_f64' and e[2]:
+            inner = strip_casts(e[2][0])
+            if inner[0] == 'call' and inner[1] == 'std::time::Instant::elapsed':
+                root, names = field_path(strip_casts(inner[2][0]))
+                if names and names[-1] == 'inserted_at':
+                    return 'E'
+        if short == 'len' and len(e[2]) == 1:
+            return 'N'
+        return '%s(%s)' % (short, ', '.join(_abs_form(ctx, body, a, depth + 1) for a in e[2]))
+    return '?' + k
+
+
+def _abs_bin(ctx, body, op, a, b, depth):
+    x, y = _abs_form(ctx, body, a, depth + 1), _abs_form(ctx, body, b, depth + 1)
+    sym = {'Add': '+', 'Sub': '-', 'Mul': '*', 'Div': '/', 'Rem': '%'}.get(op, op)
+    if op in ('Add', 'Mul'):
+        x, y = sorted((x, y))
+    return '(%s %s %s)' % (x, sym, y)
+
+
+# documented score factors, in abstract normal form (see _abs_form)
+FACTOR_FORMS = {
+    'FREQ': {'F', '(F * W)', 'powf(F, W)', '0'},
+    'POS': {'(1 + I)', '(N - I)'},
+    'AGE': {'1', 'max((1 - min((E / TTL), 1)), 0)'},
+}
+
+
 def analyse_selector(ctx, body):
     ex = Expr(body)
     info = {'fn': body.name}
@@ -1312,6 +1377,8 @@ def analyse_selector(ctx, body):
             f0 = strip_casts(f)
             kind = '?'
             detail = show(f0)
+            fdefs = _phi_defs(body, ex, f0[1]) if f0[0] == 'phi' else [f0]
+            forms = sorted({_abs_form(ctx, body, d) for d in fdefs})
             if _is_freq(f0):
                 kind = 'FREQ'
             elif _mentions_index(f0):
@@ -1344,6 +1411,7 @@ def analyse_selector(ctx, body):
                     kind = 'AGE' if (has_one and has_clamp and float_div) else 'AGE?'
                 detail = txt
             fi.append((kind, detail))
+            info.setdefault('forms', []).append((kind, forms))
         info['score'] = fi
     return info
 
@@ -1379,6 +1447,16 @@ def check_selectors(run, ctx):
         else:
             run.ok('C08-K1', key + '/direction', 'candidate replaces the minimum on %s' % info['cmp_sym'])
         kinds = [k for (k, _) in info['score']]
+        for (fk_, forms_) in info.get('forms', []):
+            fam = 'FREQ' if fk_.startswith('FREQ') else 'POS' if fk_.startswith('POS') else 'AGE' if fk_.startswith('AGE') else None
+            if fam is None:
+                continue
+            odd = [f for f in forms_ if f not in FACTOR_FORMS[fam]]
+            if odd:
+                run.bad('C08-K2', key + '/factor-form', 'the %s factor of the %s score in %s is computed as %s; documented forms: %s (F hit counter, W frequency_weight, I queue index, '
+                        'N queue length, E age in seconds)' % (fam, pol, name, ' | '.join(odd), ' | '.join(sorted(FACTOR_FORMS[fam]))), site=name, oracle='score factor in a documented normal form')
+            else:
+                run.ok('C08-K2', key + '/factor-form/' + fam, ' | '.join(forms_))
         if pol == 'LFU':
             if kinds != ['FREQ']:
                 run.bad('C08-K2', key + '/score', 'LFU score must be the hit counter of the looked-up entry; found factors %s' % info['score'], site=name)
